@@ -1,6 +1,7 @@
 package main
 
 import (
+	"go/types"
 	"encoding/json"
 	"fmt"
 	"os"
@@ -261,6 +262,95 @@ func callSiteRows(c *Ctx, fns []*ssa.Function, callees ...string) []siteRow {
 				}
 			}
 			rows = append(rows, siteRow{fmt.Sprintf("%s#%d", k, count[k]), attrs, i})
+		})
+	}
+	return rows
+}
+
+// effectRows: the observable effects of fn — returns, stores to fields / elements / maps, calls into the module, panics —
+// each with its operands and reach conditions. Used to pin reviewed data-structure surgery (scheduler queues, priority tree).
+func effectRows(c *Ctx, fn *ssa.Function) []siteRow {
+	rows := returnRows(c, fn)
+	count := map[string]int{}
+	add := func(kind, what string, i ssa.Instruction, extra ...string) {
+		k := funcName(fn) + " " + kind + " " + what
+		if len(k) > 260 {
+			k = k[:260]
+		}
+		count[k]++
+		attrs := append(append([]string{}, extra...), c.reachConds(i.Block())...)
+		if inLoop(i.Block()) {
+			attrs = append(attrs, "in loop")
+		}
+		rows = append(rows, siteRow{fmt.Sprintf("%s#%d", k, count[k]), attrs, i})
+	}
+	for _, f := range withAnon(fn) {
+		eachInstr(f, func(i ssa.Instruction) {
+			switch x := i.(type) {
+			case *ssa.Store:
+				root := addrRoot(x.Addr)
+				if al, ok := root.(*ssa.Alloc); ok && (al.Comment == "varargs" || !al.Heap && uniqueStore(al) != nil) {
+					return
+				}
+				if _, ok := root.(*ssa.Alloc); ok {
+					if _, isFA := x.Addr.(*ssa.FieldAddr); !isFA {
+						if _, isIA := x.Addr.(*ssa.IndexAddr); !isIA {
+							return // plain local variable
+						}
+					}
+				}
+				add("stores", c.Expr(x.Addr), i, "value "+c.Expr(x.Val))
+			case *ssa.Lookup:
+				if _, isMap := x.X.Type().Underlying().(*types.Map); !isMap {
+					return
+				}
+				// a map read is an effect-relevant step when calls into the module may run before it (they may change the map):
+				// record which ones can precede this read, so that hoisting the read above such a call is visible
+				var before []string
+				seenB := map[string]bool{}
+				eachInstr(f, func(j ssa.Instruction) {
+					cc := callOf(j)
+					if cc == nil {
+						return
+					}
+					n := calleeName(cc)
+					if !strings.Contains(n, "http2.") || seenB[n] {
+						return
+					}
+					if reachesAfter(j, i) {
+						seenB[n] = true
+						before = append(before, n)
+					}
+				})
+				sort.Strings(before)
+				add("reads-map", c.Expr(x.X)+"["+c.Expr(x.Index)+"]", i, "may run after: "+strings.Join(before, ", "))
+			case *ssa.MapUpdate:
+				add("map-set", c.Expr(x.Map), i, "key "+c.Expr(x.Key), "value "+c.Expr(x.Value))
+			case *ssa.Panic:
+				add("panics", panicMessage(c, x), i)
+			case *ssa.Call, *ssa.Defer, *ssa.Go:
+				cc := callOf(i)
+				n := calleeName(cc)
+				if n == "builtin.delete" {
+					add("map-delete", c.Expr(cc.Args[0]), i, "key "+c.Expr(cc.Args[1]))
+					return
+				}
+				if n == "builtin.copy" {
+					add("copies", c.Expr(cc.Args[0]), i, "from "+c.Expr(cc.Args[1]))
+					return
+				}
+				if n == "" || strings.HasPrefix(n, "builtin.") {
+					return
+				}
+				if !strings.Contains(n, "http2.") && !strings.Contains(n, "hpack.") && !strings.HasPrefix(n, "sort.") {
+					return
+				}
+				var args []string
+				for _, a := range callArgs(cc) {
+					args = append(args, c.Expr(a))
+				}
+				add("calls", n, i, "args ("+strings.Join(args, ", ")+")")
+			}
 		})
 	}
 	return rows
